@@ -45,6 +45,7 @@ type ModOpts struct {
 	MinExtFiles  int  // at least this many files contribute extensions (C12)
 	Layout       bool // random layout for some files
 	Decoys       bool // C16: longer names sharing a prefix declared earlier, same-named relations in other types
+	MultiDup     bool // C12: several conflicts inside one file (several duplicate conditions, several clashing relations)
 	OnlyKinds    []string
 }
 
@@ -375,6 +376,48 @@ func Modules(t *rapid.T, o ModOpts) *ModuleSet {
 				continue
 			}
 			ms.Conflicts = append(ms.Conflicts, Conflict{Kind: kind, Name: rn, Type: e.typ, Files: uniq(ms.Files[e.file].Name, ms.Files[fi].Name)})
+		}
+	}
+	// several conflicts inside ONE file (the order of their errors is then decided inside that file's processing):
+	// one file re-declares two or three conditions of other files, or one extension repeats several base relations
+	if o.MultiDup && rapid.IntRange(0, 2).Draw(t, "multiDup") == 0 && nFiles >= 2 {
+		fi := rapid.IntRange(0, nFiles-1).Draw(t, "multiDupFile")
+		f := &ms.Files[fi]
+		if !f.SyntaxError && f.Module != "" {
+			have := map[string]bool{}
+			for _, cd := range f.Model.Conds {
+				have[cd.Name] = true
+			}
+			added := 0
+			for _, cn := range condNames {
+				if !have[cn] && added < 3 {
+					f.Model.Conds = append(f.Model.Conds, Condition{Name: cn, Params: []Param{{Name: "z", Type: "bool"}}, Expr: "z"})
+					var src string
+					for i := range ms.Files {
+						for _, cd := range ms.Files[i].Model.Conds {
+							if cd.Name == cn && i != fi {
+								src = ms.Files[i].Name
+							}
+						}
+					}
+					ms.Conflicts = append(ms.Conflicts, Conflict{Kind: "duplicate-condition", Name: cn, Files: uniq(src, f.Name)})
+					added++
+				}
+			}
+			var cands []string
+			for _, tn := range baseNames {
+				if len(base[tn].rels) >= 2 {
+					cands = append(cands, tn)
+				}
+			}
+			if len(cands) > 0 && rapid.Bool().Draw(t, "multiClash") {
+				tn := rapid.SampledFrom(cands).Draw(t, "multiClashType")
+				for _, rn := range base[tn].rels {
+					if addExtRelation(ms, fi, tn, rn, extended) {
+						ms.Conflicts = append(ms.Conflicts, Conflict{Kind: "relation-clash-base", Name: rn, Type: tn, Files: []string{f.Name}})
+					}
+				}
+			}
 		}
 	}
 	// a non-module file cannot carry extensions (that would be a second, different defect)
